@@ -21,6 +21,7 @@ RULE = (
     "is a state, every (buffer size, start offset, limit) applied to it is a transition executed on the real "
     "iter_find_needle and compared with a naive scan. ArtifactKit: every file up to the length bound over "
     "{00,10,11,14,ff} plus constructed header placements, compared with a naive reference scanner. "
+    ' Added: needles of 4-9 bytes with every buffer size, start offsets with a positioned handle, ArtifactKit headers at every offset 0..1199 and around 4096 / 8192 / 16384 / 65536, small scan buffers. '
     "non-trivial = the naive scan or the library reports at least one occurrence/payload"
 )
 ASSUMPTIONS = [
